@@ -9,11 +9,13 @@ def run(ctx):
     RK.pipeline_order(ctx, "R11.f", edges={("lower", "set_pos"), ("lower", "set_stem"), ("normalize", "lower"),
                                              ("normalize", "split")})
     RK.normalize_first(ctx, "R11.f")
+    RL.normalisation_loops(ctx, "R11.h")
+    RK.normalize_assigns_together(ctx, "R11.h")
     return info("Every language table is bound to its role by data-flow from the constant to the Lang::add_* call that "
                 "consumes it and checked entry by entry against Python's unicodedata: composition entries are NFD pair -> NFC "
                 "letter (R11.a); every reducible letter with a two-code-point NFD is composable (R11.b); other-case forms are "
                 "reduced alike (R11.c); reduction targets contain no reducible letter (R11.d); keys fit the normalisation "
                 "window (R11.g); both tokenisers normalise first and lower-case before part-of-speech look-up and stemming "
-                "(R11.f). Interaction with the Snowball stemmers is not decided.",
+                "(R11.f). R11.h: compose/reduce walk the whole input with their own map on every path (no fast path), add_* fill the matching map, Text::normalize applies compose then reduce with the right pairing. Interaction with the Snowball stemmers is not decided.",
                 assumptions=["Python's unicodedata (Unicode %s) is the oracle for NFC/NFD and case mappings" %
                              __import__("unicodedata").unidata_version])
